@@ -321,6 +321,14 @@ func (its *PushPullHandler) pushOperations() errors.OrdaError {
 }
 
 func (its *PushPullHandler) processSubscribeOrCreate(code pushPullCase) errors.OrdaError {
+	if code == caseMatchKeyNotType {
+		// the key names a datatype of another type: it can be neither created, subscribed nor pushed to
+		msg := fmt.Sprintf("%s is a %s", its.Key, its.datatypeDoc.Type)
+		if its.gotOption.HasCreateBit() {
+			return errors.PushPullDuplicateKey.New(its.ctx.L(), msg)
+		}
+		return errors.PushPullNoDatatypeToSubscribe.New(its.ctx.L(), msg)
+	}
 	if its.gotOption.HasSubscribeBit() && its.gotOption.HasCreateBit() {
 		switch code {
 		case caseMatchNothing:
@@ -358,6 +366,10 @@ func (its *PushPullHandler) processSubscribeOrCreate(code pushPullCase) errors.O
 		case caseAllMatchedNotVisible: //
 		default:
 		}
+	}
+	if its.datatypeDoc == nil {
+		// a push-pull without create/subscribe for a datatype the server does not have
+		return errors.PushPullNoDatatypeToSubscribe.New(its.ctx.L(), its.Key)
 	}
 	return its.initClientInfoWithDatatypeDoc()
 }
